@@ -294,6 +294,29 @@ def create_job_groups_contract():
     )
 
 
+def client_token_contracts():
+    """aioclient: the batch-create token is state of the Batch object - drawn at most once, in the constructor, and sent unchanged
+    by every create request built from that object (a request re-sent after a lost response must carry the token the server has
+    already seen)"""
+
+    def token_urlsafe(eng, st, args, kw, node):
+        st.env['n_drawn'] = st.env['n_drawn'] + 1
+        return z3.Const(pyvc.fresh_name('drawn_token'), pyvc.U)
+
+    spec = Contract(
+        path=CL,
+        qualname='Batch._batch_spec',
+        self_fields={'token': 'U', 'attributes': 'U', '_callback': 'U', '_cancel_after_n_failures': 'U', '_job_group_specs': ('list', 'U'), '_job_specs': ('list', 'U'), '_client': 'U'},
+        ghost_init={'n_drawn': '0'},
+        calls={'secrets.token_urlsafe': token_urlsafe},
+        ensures=[("the-create-request-carries-the-token-of-the-batch-object", "result['token'] == self.token and n_drawn == 0"),
+                 ('the-token-of-the-batch-object-is-not-changed', 'self.token == old(self.token)'),
+                 ('declares-the-jobs-and-groups-held', "result['n_jobs'] == len(self._job_specs) and result['n_job_groups'] == len(self._job_group_specs)")],
+        canaries=[('never-returns', 'False')],
+    )
+    return [spec]
+
+
 def client_contracts():
     job = Contract(
         path=CL,
@@ -328,6 +351,18 @@ def build(ctx):
     ctx.add(core.decided('_create_batch.insert/no-call-outside-the-contract', not [u for u in eb.unmodelled if not u.startswith('log.')], repr(eb.unmodelled), kind='frame'))
     for c in client_contracts():
         pyvc.Engine(ctx, c).run()
+    for c in client_token_contracts():
+        ec = pyvc.Engine(ctx, c).run()
+        ctx.add(core.decided('%s/no-call-outside-the-contract' % c.qualname, not ec.unmodelled, repr(ec.unmodelled), kind='frame'))
+    ctree = pyast.parse(core.read_repo(CL))
+    init = pyvc.find_function(ctree, 'Batch.__init__')
+    draws = [pyast.unparse(n) for n in pyast.walk(init) if isinstance(n, pyast.Call) and pyast.unparse(n.func) == 'secrets.token_urlsafe']
+    assigns = [pyast.unparse(n) for n in pyast.walk(init) if isinstance(n, pyast.Assign) and any(pyast.unparse(t) == 'self.token' for t in n.targets)]
+    guarded = any(isinstance(n, pyast.If) and pyast.unparse(n.test) in ('token is None', 'not token') and any(isinstance(m, pyast.Assign) and pyast.unparse(m.targets[0]) == 'token' and 'secrets.token_urlsafe' in pyast.unparse(m.value) for m in n.body) for n in pyast.walk(init))
+    ctx.add(core.decided('Batch.__init__/the-create-token-is-the-one-given-or-drawn-once-at-construction', len(draws) == 1 and assigns == ['self.token = token'] and guarded, 'draws=%r assigns=%r' % (draws, assigns), kind='scan'))
+    writers = sorted({fn.name for cls in ctree.body if isinstance(cls, pyast.ClassDef) and cls.name == 'Batch' for fn in cls.body if isinstance(fn, (pyast.FunctionDef, pyast.AsyncFunctionDef)) for n in pyast.walk(fn) if isinstance(n, (pyast.Assign, pyast.AugAssign, pyast.AnnAssign)) for t in (n.targets if isinstance(n, pyast.Assign) else [n.target]) if pyast.unparse(t) == 'self.token'})
+    ctx.add(core.decided('Batch/the-create-token-is-written-only-by-the-constructor', writers == ['__init__'], repr(writers), kind='scan'))
+    ctx.under_contract(CL, 'Batch.__init__ (create token)')
     # server side id computation uses the same formula (AST obligations on _create_jobs / _create_job_groups)
     src = core.read_repo(FE)
     tree = pyast.parse(src)
